@@ -4,7 +4,7 @@ import shapes, nslgen, gentyped, vmcases, ircoq
 from nslgen import *
 from props import c01
 
-STATIC = ["Model/IR.v", "Model/VM.v", "Model/WfIR.v", "Model/Opt.v", "Proofs/WfIRProofs.v", "Proofs/OptProofs.v", "Proofs/ForwardProofs.v", "Harness/FwdLib.v"]
+STATIC = ["Model/IR.v", "Model/VM.v", "Model/WfIR.v", "Model/Opt.v", "Proofs/WfIRProofs.v", "Proofs/OptProofs.v", "Proofs/ForwardProofs.v", "Harness/FwdLib.v", "Proofs/LowerWfProofs.v", "Proofs/StraightOptProofs.v"]
 
 
 def targeted(rng):
